@@ -5,6 +5,8 @@ bookkeeping right.
 import DimModel.Lib.Missing
 import DimModel.Proofs.C09
 import DimModel.Props.C08
+import DimModel.Props.C01
+import DimModel.Proofs.C11
 namespace DimModel
 open Lib
 
@@ -623,5 +625,169 @@ example : (ex23.axes.getD 1 default).members = [] ∧ (ex23.axes.getD 1 default)
     4 < ex23.vals.toList.length ∧ argWholeLabels ex23 4 = [.num 2, .str "b"] :=
   ⟨by decide, by decide, by decide, fun cs h => List.length_pos_iff.mpr h, by decide, by decide,
    by decide, by decide⟩
+
+/-! ### whole-array arg-extremum: the mirror `Lib.argWhole` (axis=None) -/
+
+/-- **the mirror returns the specification tuple**: with `p` the position NumPy's arg function returns on the
+row-major list of ALL cells, `argWhole` succeeds on a non-empty array with plain axes and returns, dimension by
+dimension, the label at component `i` of `np.unravel_index(p, shape)` (`argWholeLabels`, stored through `lab`) -/
+theorem argWhole_eq_labels {α : Type} (argp : List α → Nat) (lab : Label → α) (a : DimArray α)
+    (hlen : a.vals.shape.length = a.axes.length)
+    (hplain : ∀ ax ∈ a.axes, ax.members = [])
+    (hne : a.vals.toList ≠ [])
+    (hargp : argp a.vals.toList < a.vals.toList.length) :
+    argWhole (pickLabel argp lab) a = .ok ((argWholeLabels a (argp a.vals.toList)).map lab) := by
+  have hE : a.vals.toList.isEmpty = false := by
+    cases hl : a.vals.toList with
+    | nil => exact absurd hl hne
+    | cons _ _ => rfl
+  have hlenU : (unravel a.vals.shape (argp a.vals.toList)).length = a.axes.length := by
+    rw [C11.unravel_length, hlen]
+  unfold argWhole
+  simp only [dealWithAxis, bind, Except.bind, pure, Except.pure, hE, Bool.false_eq_true, if_false]
+  congr 1
+  apply List.ext_getElem
+  · simp [argWholeLabels, hlenU]
+  · intro i h1 h2
+    have hi : i < a.axes.length := by simpa using h1
+    have hiU : i < (unravel a.vals.shape (argp a.vals.toList)).length := hlenU ▸ hi
+    have hm : (a.axes[i]).members.isEmpty = true := by
+      rw [hplain _ (List.getElem_mem hi)]; rfl
+    simp only [List.getElem_map, List.getElem_zipIdx, argWholeLabels, List.getElem_zip, Nat.zero_add,
+      pickLabel, hm, if_true]
+    congr 1
+    rw [List.getD_eq_getElem?_getD, List.getElem?_map, List.getElem?_range hargp]
+    simp only [Option.map_some, Option.getD_some]
+    rw [List.getD_eq_getElem?_getD (l := unravel _ _), List.getElem?_eq_getElem hiU]
+    rfl
+
+/-- **whole-array arg-extremum, end to end on the mirror** (`a.argmin()` / `a.argmax()`, any rank, any `skipna`:
+`argp` is NumPy's flat arg-position on the row-major cell list). On a non-empty array whose axes are plain, as long as
+the values announce and carry distinct labels, `argWhole` succeeds and returns one cell per dimension; with
+`u = np.unravel_index(p, shape)`, `p = argp cells`:
+* `u` is a valid index of the array and the cell at `u` is entry `p` of the row-major cell list - the extremum NumPy
+  designated;
+* the `i`-th returned cell is the label of axis `i` at `u[i]`;
+* looking that label up on axis `i` (`locateOne`, exact match) gives back `u[i]`: indexing with the returned tuple
+  addresses exactly the extremum (distinct labels are needed: `arg_label_dup_counterexample`). -/
+theorem argWhole_spec {α : Type} (argp : List α → Nat) (lab : Label → α) (a : DimArray α)
+    (hshape : a.vals.shape = a.axes.map (·.labels.length))
+    (hplain : ∀ ax ∈ a.axes, ax.members = [])
+    (hnd : ∀ ax ∈ a.axes, ax.labels.Nodup)
+    (hargp : ∀ cs : List α, cs ≠ [] → argp cs < cs.length)
+    (hne : a.vals.toList ≠ []) :
+    ∃ (r : List α) (hp : argp a.vals.toList < a.vals.toList.length),
+      argWhole (pickLabel argp lab) a = .ok r ∧ r.length = a.axes.length ∧
+      InRange a.vals.shape (unravel a.vals.shape (argp a.vals.toList)) ∧
+      a.vals.get (unravel a.vals.shape (argp a.vals.toList)) = a.vals.toList[argp a.vals.toList] ∧
+      ∀ i (hi : i < a.axes.length) (hr : i < r.length),
+        ∃ hb : (unravel a.vals.shape (argp a.vals.toList)).getD i 0 < a.axes[i].labels.length,
+          r[i] = lab (a.axes[i].labels[(unravel a.vals.shape (argp a.vals.toList)).getD i 0]) ∧
+          locateOne a.axes[i].labels (a.axes[i].labels[(unravel a.vals.shape (argp a.vals.toList)).getD i 0]) none =
+            .ok ((unravel a.vals.shape (argp a.vals.toList)).getD i 0) := by
+  have hp := hargp _ hne
+  have hlen : a.vals.shape.length = a.axes.length := by rw [hshape, List.length_map]
+  obtain ⟨hin, hget, hl, hloc⟩ := arg_whole_spec a (argp a.vals.toList) hshape hnd hp
+  refine ⟨_, hp, argWhole_eq_labels argp lab a hlen hplain hne hp, by rw [List.length_map, hl], hin, hget, ?_⟩
+  intro i hi hr
+  have hlenU : (unravel a.vals.shape (argp a.vals.toList)).length = a.axes.length := by
+    rw [C11.unravel_length, hlen]
+  have hiU : i < (unravel a.vals.shape (argp a.vals.toList)).length := hlenU ▸ hi
+  have e2 : (unravel a.vals.shape (argp a.vals.toList)).getD i 0 = (unravel a.vals.shape (argp a.vals.toList))[i] := by
+    rw [List.getD_eq_getElem?_getD, List.getElem?_eq_getElem hiU]; rfl
+  have hb : (unravel a.vals.shape (argp a.vals.toList)).getD i 0 < a.axes[i].labels.length := by
+    have := inRange_getElem a.vals.shape _ hin i (by rw [hlen]; exact hi) hiU
+    rw [e2]
+    simpa [hshape] using this
+  have hli : i < (argWholeLabels a (argp a.vals.toList)).length := by rw [hl]; exact hi
+  have e1 : (argWholeLabels a (argp a.vals.toList))[i] =
+      a.axes[i].labels[(unravel a.vals.shape (argp a.vals.toList)).getD i 0] := by
+    simp only [argWholeLabels, List.getElem_map, List.getElem_zip]
+    rw [← e2, List.getD_eq_getElem?_getD, List.getElem?_eq_getElem hb]; rfl
+  refine ⟨hb, ?_, ?_⟩
+  · rw [List.getElem_map, e1]
+  · have := hloc i hi hli
+    rw [e1] at this
+    exact this
+
+/-- **indexing back through `Lib.take`**: reading the array at the returned tuple of labels (label mode, one scalar
+label per dimension: `a[labels]`) succeeds, drops every dimension, keeps the metadata, and the single cell of the
+result is entry `p` of the row-major cell list - the extremum NumPy designated.  (`Label.none` is the placeholder label
+of `newaxis`; it is not a label one can index with, hence the side condition.) -/
+theorem argWhole_index_back {α : Type} (argp : List α → Nat) (a : DimArray α) (cfg : IndexCfg)
+    (hm : cfg.mode = .label) (ht : cfg.tol = none) (hk : cfg.keepdims = false)
+    (hshape : a.vals.shape = a.axes.map (·.labels.length))
+    (hplain : ∀ ax ∈ a.axes, ax.members = [])
+    (hnd : ∀ ax ∈ a.axes, ax.labels.Nodup)
+    (hnone : ∀ ax ∈ a.axes, Label.none ∉ ax.labels)
+    (hp : argp a.vals.toList < a.vals.toList.length) :
+    ∃ r, Lib.take a (.tuple ((argWholeLabels a (argp a.vals.toList)).map Ix.scalar)) cfg = .ok r ∧
+      r.axes = [] ∧ r.vals.shape = [] ∧ r.attrs = a.attrs ∧
+      r.vals.get [] = a.vals.toList[argp a.vals.toList] := by
+  have hlen : a.vals.shape.length = a.axes.length := by rw [hshape, List.length_map]
+  obtain ⟨hin, hget, hl, hloc⟩ := arg_whole_spec a (argp a.vals.toList) hshape hnd hp
+  generalize hu : unravel a.vals.shape (argp a.vals.toList) = u at hin hget hloc
+  have hlenU : u.length = a.axes.length := by rw [← hu, C11.unravel_length, hlen]
+  -- every returned label is a label of its axis, at position `u[i]`
+  have hlab : ∀ i (hi : i < a.axes.length), ∃ hb : u.getD i 0 < a.axes[i].labels.length,
+      (argWholeLabels a (argp a.vals.toList))[i]'(by rw [hl]; exact hi) = a.axes[i].labels[u.getD i 0] := by
+    intro i hi
+    have hiU : i < u.length := hlenU ▸ hi
+    have e2 : u.getD i 0 = u[i] := by
+      rw [List.getD_eq_getElem?_getD, List.getElem?_eq_getElem hiU]; rfl
+    have hb : u.getD i 0 < a.axes[i].labels.length := by
+      have := inRange_getElem a.vals.shape _ hin i (by rw [hlen]; exact hi) hiU
+      rw [e2]; simpa [hshape] using this
+    refine ⟨hb, ?_⟩
+    simp only [argWholeLabels, List.getElem_map, List.getElem_zip, hu]
+    rw [← e2, List.getD_eq_getElem?_getD, List.getElem?_eq_getElem hb]; rfl
+  -- the specification of label indexing applies
+  have hspec : Lib.take a (.tuple ((argWholeLabels a (argp a.vals.toList)).map Ix.scalar)) cfg =
+      Spec.take a ((argWholeLabels a (argp a.vals.toList)).map Ix.scalar) := by
+    apply take_spec a _ cfg hm ht hk (by rw [List.length_map, hl])
+    · intro ix hix
+      obtain ⟨l, hlm, rfl⟩ := List.mem_map.mp hix
+      obtain ⟨i, hi, rfl⟩ := List.getElem_of_mem hlm
+      have hi' : i < a.axes.length := hl ▸ hi
+      obtain ⟨hb, e⟩ := hlab i hi'
+      show (argWholeLabels a (argp a.vals.toList))[i] ≠ Label.none
+      rw [e]
+      intro h0
+      exact hnone _ (List.getElem_mem hi') (h0 ▸ List.getElem_mem hb)
+    · intro ax hax; exact ⟨hnd ax hax, hplain ax hax⟩
+  -- ... and finds, on every axis, the unravelled position
+  have hpos : (((argWholeLabels a (argp a.vals.toList)).map Ix.scalar).zip a.axes).mapM
+      (fun (x : Ix × Axis) => Spec.positions x.2.labels x.1) = some (u.map PosIx.scalar) := by
+    apply positions_scalars a.axes _ u hl hlenU
+    intro i h1 h2 h3
+    obtain ⟨hb, e⟩ := hlab i h1
+    have e2 : u.getD i 0 = u[i] := by
+      rw [List.getD_eq_getElem?_getD, List.getElem?_eq_getElem h3]; rfl
+    rw [e]
+    exact ⟨List.getElem_mem hb, by rw [firstIdx_unique (hnd _ (List.getElem_mem h1)) hb, e2]⟩
+  refine ⟨{ axes := Spec.takeAxes a.axes (u.map PosIx.scalar), vals := a.vals.outer (u.map PosIx.scalar),
+            vkind := a.vkind, attrs := a.attrs }, ?_, takeAxes_scalars a.axes u, outerShape_scalars u, rfl, ?_⟩
+  · rw [hspec]
+    unfold Spec.take
+    rw [hpos]
+  · show a.vals.get (expandIx (u.map PosIx.scalar) []) = _
+    rw [expandIx_scalars, hget]
+
+open C08 in
+/-- hypotheses of `argWhole_eq_labels`, `argWhole_spec`, `argWhole_index_back` on the 2 x 3 example (position function
+"the last cell", which is a valid position of every non-empty list), and the mirror evaluated on it: flat position 5
+unravels to (1, 2), the labels there are `2` and `"c"` (stored through a `lab` that keeps the number / the length) -/
+example : ex23.vals.shape = ex23.axes.map (·.labels.length) ∧ (∀ ax ∈ ex23.axes, ax.members = []) ∧
+    (∀ ax ∈ ex23.axes, ax.labels.Nodup) ∧ (∀ ax ∈ ex23.axes, Label.none ∉ ax.labels) ∧ ex23.vals.toList ≠ [] ∧
+    (∀ cs : List Int, cs ≠ [] → (fun cs : List Int => cs.length - 1) cs < cs.length) ∧
+    (match argWhole (pickLabel (fun cs : List Int => cs.length - 1)
+        (fun l => match l with | .num q => q.num | .str s => s.length | .none => -1)) ex23 with
+      | .ok r => r | _ => []) = [2, 1] ∧
+    argWholeLabels ex23 5 = [.num 2, .str "c"] ∧
+    (match Lib.take ex23 (.tuple [.scalar (.num 2), .scalar (.str "c")]) {} with
+      | .ok r => (r.vals.shape, r.vals.get []) | _ => ([7], 7)) = ([], 5) :=
+  ⟨by decide, by decide, by decide, by decide, by decide,
+   fun cs h => by have := List.length_pos_iff.mpr h; show cs.length - 1 < cs.length; omega,
+   by decide, by decide, by decide⟩
 
 end DimModel
